@@ -788,8 +788,80 @@ def concurrent_stage(c):
   c.coverage_extra['concurrent_writer_schedules'] = sum(r['schedules'] for r in results)
 
 
+def client_readback_stage(c):
+  """Reading back THROUGH THE CLIENT LIBRARY: several handles (one per worker, as in any distributed job) on one
+  service, writes by any handle and by the algorithm (a stateful designer policy persists its state into the study
+  metadata on every suggestion); after every step every handle must read exactly what the service stores."""
+  from vcheck import svc
+  from vizier import pyvizier as vz
+  from vizier.service import pyvizier as svz
+  from vizier._src.service import clients, vizier_client, vizier_service, vizier_service_pb2 as vsp
+  n_prog = 6 if c.tier == 'quick' else 40
+  for pi in range(n_prog):
+    backend = 'ram' if pi % 2 == 0 else 'sqlmem'
+    sv = vizier_service.VizierServicer(database_url=None if backend == 'ram' else 'sqlite:///:memory:')
+    p = vz.ProblemStatement()
+    p.search_space.root.add_float_param('x', 0.0, 1.0)
+    p.metric_information.append(vz.MetricInformation(name='obj', goal=vz.ObjectiveMetricGoal.MAXIMIZE))
+    cfg = svz.StudyConfig.from_problem(p)
+    cfg.algorithm = c.rng.choice(['GRID_SEARCH', 'QUASI_RANDOM_SEARCH', 'RANDOM_SEARCH'])
+    from vizier._src.service import study_pb2
+    sv.CreateStudy(vsp.CreateStudyRequest(parent='owners/o', study=study_pb2.Study(display_name='s', study_spec=cfg.to_proto())))
+    hs = [clients.Study(vizier_client.VizierClient('owners/o/studies/s', 'w%d' % w, sv)) for w in range(c.rng.choice([2, 2, 3]))]
+    nss = [(), ('a',), ('a:b', ''), ('a', 'b')]
+    prog, last = [], {}
+    steps = c.rng.randrange(5, 12)
+    bad = None
+    for si in range(steps):
+      h = c.rng.randrange(len(hs))
+      kind = c.rng.choice(['write', 'write', 'suggest', 'read'])
+      try:
+        if kind == 'write':
+          ns, k, v = c.rng.choice(nss), c.rng.choice(['k', 'j', '']), c.rng.choice(['', 'v', 'w%d' % si])
+          md = vz.Metadata()
+          md.abs_ns(vz.Namespace(ns))[k] = v
+          hs[h].update_metadata(md)
+          last[(ns, k)] = v
+          prog.append(['write', h, list(ns), k, v])
+        elif kind == 'suggest':
+          ts = hs[h].suggest(count=1, client_id='w%d' % h)
+          for t in ts:
+            t.complete(vz.Measurement(metrics={'obj': 0.5}))
+          prog.append(['suggest+complete', h])
+        else:
+          prog.append(['read', h])
+      except Exception as e:  # pylint: disable=broad-except
+        raise core.InfraError('client read-back program step %s raised %s: %s' % (prog[-1:] or kind, type(e).__name__, str(e)[:200]))
+      stored = svz.StudyConfig.from_proto(sv.GetStudy(vsp.GetStudyRequest(name='owners/o/studies/s')).study_spec).metadata
+      want = sorted((tuple(ns), k, v if isinstance(v, str) else repr(v)) for ns in stored.namespaces() for k, v in stored.abs_ns(ns).items())
+      c.traces += 1
+      for hi, hd in enumerate(hs):
+        got_md = hd.materialize_study_config().metadata
+        got = sorted((tuple(ns), k, v if isinstance(v, str) else repr(v)) for ns in got_md.namespaces() for k, v in got_md.abs_ns(ns).items())
+        if got != want and bad is None:
+          missing = [x for x in want if x not in got]
+          extra = [x for x in got if x not in want]
+          bad = (si, hi, missing, extra)
+      # user entries: last writer wins (the algorithm writes reserved namespaces only)
+      users = {(ns, k): v for ns, k, v in want if not (ns and ns[0].startswith('designer_policy'))}
+      if bad is None and users != {(tuple(ns), k): v for (ns, k), v in last.items()}:
+        bad = (si, -1, sorted(users.items()), sorted(last.items()))
+      if bad is not None:
+        break
+    c.count(len(prog), ('client-readback', pi) if sum(1 for x in prog if x[0] != 'read') >= 3 else None, kind='client-readback:' + backend)
+    if bad is not None:
+      si, hi, a, b = bad
+      if hi >= 0:
+        c.prop_fail('client-readback-stale', 'after step %d (%s) handle %d of %d reads the study metadata back differently from what the service stores (backend %s): missing/stale %s, not stored %s' % (
+            si, prog[si], hi, len(hs), backend, a[:4], b[:4]), {'backend': backend, 'algorithm': cfg.algorithm, 'program': prog, 'handle': hi, 'missing': a, 'extra': b})
+      else:
+        c.prop_fail('client-write-not-last-writer-wins', 'after step %d the stored user entries %s are not the last written ones %s (backend %s)' % (si, a[:6], b[:6], backend),
+                    {'backend': backend, 'program': prog})
+
+
 def run(c):
   c.proof_stage()
+  client_readback_stage(c)
   codec_stage(c)
   merge_stage(c)
   store_stage(c)
